@@ -36,6 +36,8 @@ IMPLS = [
     ('consumes_remaining_pattern.rs', 'struct ConsumesRemainingPattern', 'impl Pattern for ConsumesRemainingPattern', m()),
     ('exact_phrase.rs', 'struct ExactPhrase', 'impl Pattern for ExactPhrase', m()),
     ('indefinite_article.rs', 'struct IndefiniteArticle', 'impl Pattern for IndefiniteArticle', m()),
+    ('whitespace_pattern.rs', 'struct WhitespacePattern', 'impl Pattern for WhitespacePattern', m()),
+    ('similar_to_phrase.rs', 'struct SimilarToPhrase', 'impl Pattern for SimilarToPhrase', m()),
     ('nominal_phrase.rs', 'struct NominalPhrase', 'impl Pattern for NominalPhrase', m(
         loops={1: dict(invariant=['cursor <= tokens@.len()'], decreases='tokens@.len() - cursor')})),
 ]
@@ -49,6 +51,7 @@ def build(repo):
     common.add_span(U, ['new', 'new_with_len', 'len', 'overlaps_with', 'get_content', 'try_get_content', 'is_empty'], props=('C01',))
     common.add_tokens(U)
     U.raw(common.kind_pred_stubs(['word', 'whitespace', 'adjective', 'determiner', 'nominal']), name='stubs:kind-preds')
+    U.raw(common.POSITION_SPEC, name='trusted:position')
     U.trait(P + 'mod.rs', 'trait Pattern', {'matches': dict(MATCHES)}, cfg_not='cfg(feature="concurrent")')
     for f, st, im, spec in IMPLS:
         U.item(P + f, st, derive=())
